@@ -250,6 +250,26 @@ Proof.
 Qed.
 Print Assumptions C07_decode_by_content.
 
+(* (3) The general form: ls parses, line by line (line_item), to ANY C03 well-formed schedule sch -- any number of
+   messages, any interleaving and per-message arrival order, slots reused after completion (other messages of the same slot
+   before and after), incomplete sets, single-sentence messages, wrappers, skipped lines --, m is a message of sch whose
+   fragments are those the lines `parts` parse to, complete.  Either reader delivers exactly one sentence d at the lines of m
+   (item_of_msg m), d carries the message, and decode( *parts' ) agrees with d.decode() for every order parts' of the parts. *)
+Theorem C07_decode_agrees_schedule : forall uni step use_tbq, step = stream_step \/ step = queue_step ->
+  forall ls sch m parts fs sq ch,
+    WF sch -> Forall2 (line_item uni use_tbq) ls sch ->
+    Forall2 line_ais parts fs -> complete_message sq ch fs ->
+    Permutation fs (map sf_sent (frags_of m (asm_frags sch))) ->
+    exists outs st d,
+      rd_run uni step use_tbq rd_init ls = (outs, Ok st) /\ length outs = length ls /\
+      pick (map (item_of_msg m) sch) (map fst outs) = [d] /\
+      view d = msg_view fs /\ a_seq_id d = sq /\ a_channel d = ch /\
+      forall parts', Permutation parts parts' ->
+        exists nmea, assemble_messages false parts' = Ok nmea /\ view nmea = view d /\
+                     sentence_decode d = mmap snd (decode_api false parts').
+Proof. exact decode_agrees_schedule. Qed.
+Print Assumptions C07_decode_agrees_schedule.
+
 (* ---------------------------------------------------------------- the property *)
 
 Definition C07_statement : Prop :=
@@ -298,13 +318,26 @@ Definition C07_statement : Prop :=
           length outs1 = length pre /\ length outs2 = length post /\
           view d = view f /\ a_seq_id d = a_seq_id f /\ a_channel d = a_channel f /\
           exists nmea, assemble_messages false [p] = Ok nmea /\ view nmea = view d /\
-                       sentence_decode d = mmap snd (decode_api false [p]))).
+                       sentence_decode d = mmap snd (decode_api false [p]))) /\
+  (* ... and for every complete message of every well-formed line schedule *)
+  (forall uni step use_tbq, step = stream_step \/ step = queue_step ->
+     forall ls sch m parts fs sq ch,
+       WF sch -> Forall2 (line_item uni use_tbq) ls sch ->
+       Forall2 line_ais parts fs -> complete_message sq ch fs ->
+       Permutation fs (map sf_sent (frags_of m (asm_frags sch))) ->
+       exists outs st d,
+         rd_run uni step use_tbq rd_init ls = (outs, Ok st) /\ length outs = length ls /\
+         pick (map (item_of_msg m) sch) (map fst outs) = [d] /\
+         view d = msg_view fs /\ a_seq_id d = sq /\ a_channel d = ch /\
+         forall parts', Permutation parts parts' ->
+           exists nmea, assemble_messages false parts' = Ok nmea /\ view nmea = view d /\
+                        sentence_decode d = mmap snd (decode_api false parts')).
 
 Theorem C07 : C07_statement.
 Proof.
   exact (conj queue_step_eq (conj runs_agree (conj frontends_agree (conj assemble_perm
         (conj rd_loops_equal (conj six_frontends_agree (conj terminators_irrelevant
-        (conj rd_wrappers_correct decode_agrees)))))))).
+        (conj rd_wrappers_correct (conj decode_agrees decode_agrees_schedule))))))))).
 Qed.
 Print Assumptions C07.
 
@@ -417,4 +450,32 @@ Proof.
   split; [split; [vm_compute; reflexivity|apply Proofs.SocketProofs.chunks_okb_spec; vm_compute; reflexivity]|].
   split; [repeat constructor; unfold unterminated; solve [left; reflexivity|right; reflexivity]|].
   split; vm_compute; reflexivity.
+Qed.
+
+(* the line sequence above followed by the same two-fragment message once more (a verbatim retransmission in the same
+   slot, fragments in order this time), as a C03 schedule: message 0 = the first transmission, 1 = the single, 2 = the
+   other slot's fragment, 3 = the retransmission.  It is well-formed, every line is the item it stands for, message 3 is made
+   of the fragments of [p1; p2]: the hypotheses of C07_decode_agrees_schedule hold; and, computed, at the lines of message 3
+   exactly one sentence is delivered, with the view of the message, decoding as decode(p2, p1) does. *)
+Definition ex_gatehouse_of (l : bytes) : gatehouse :=
+  match produce l with Ok (SGatehouse g) => g | _ => mkGh (ex_common 0 false) (mkTs 0 0 0 0 0 0 0) [] [] [] 0 end.
+Definition ex_lines2 : list bytes := ex_lines ++ [ex_p1; ex_p2].
+Definition ex_sched2 : asm_schedule :=
+  [ IFrag (mkSF 0 (ex_parse ex_p2)); IFrag (mkSF 1 (ex_parse ex_single)); IWrapper (ex_gatehouse_of ex_gh);
+    IFrag (mkSF 2 (ex_parse ex_other)); ISkipped UnknownMessageException; IFrag (mkSF 0 (ex_parse ex_p1));
+    IFrag (mkSF 3 (ex_parse ex_p1)); IFrag (mkSF 3 (ex_parse ex_p2)) ].
+
+Example C07_schedule_nonvacuous :
+  WF ex_sched2 /\ Forall2 (line_item ex_uni true) ex_lines2 ex_sched2 /\
+  Permutation [ex_parse ex_p1; ex_parse ex_p2] (map sf_sent (frags_of 3 (asm_frags ex_sched2))) /\
+  map (fun o => length (fst o)) (fst (rd_run ex_uni queue_step true rd_init ex_lines2)) = [0; 1; 0; 0; 0; 1; 0; 1]%nat /\
+  map view (pick (map (item_of_msg 3) ex_sched2) (map fst (fst (rd_run ex_uni queue_step true rd_init ex_lines2)))) =
+    [msg_view [ex_parse ex_p1; ex_parse ex_p2]] /\
+  map sentence_decode (pick (map (item_of_msg 3) ex_sched2) (map fst (fst (rd_run ex_uni stream_step true rd_init ex_lines2)))) =
+    [mmap snd (decode_api false [ex_p2; ex_p1])].
+Proof.
+  split; [apply wf_check_sound; vm_compute; reflexivity|].
+  split; [repeat constructor; vm_compute; solve [reflexivity | exact I | intros _; exact I]|].
+  split; [vm_compute; apply Permutation_refl|].
+  vm_compute. repeat split; reflexivity.
 Qed.
